@@ -408,6 +408,11 @@ StepPromise ==
   /\ UNCHANGED <<mem, tracked, wfile, woff, items, entries, exists, sized, dirDurable, buffered, osCnt, mode, done,
                  inflight, assigned, batches, wsum, wstart, nops, post, ncrash, verdict, clean, lastRet, lastLoss, cfile, ndamage, damaged, hits, dkinds>>
 
+(* a truncate / delete issued on a queue legitimises the loss of leading records of its earlier batches *)
+TruncBatches(bs, c) ==
+  [i \in 1..Len(bs) |->
+     IF bs[i].q = c.q THEN [bs[i] EXCEPT !.tp = IF c.op = "delete" THEN 1000000 ELSE QmMax(@, c.p)] ELSE bs[i]]
+
 AddPend(pend, st) == IF pend[Len(pend)] = st THEN pend ELSE Append(pend, st)
 
 StepReturn ==
@@ -416,8 +421,10 @@ StepReturn ==
        /\ done' = st
        /\ pendP' = AddPend(pendP, st) /\ pendW' = AddPend(pendW, st)
        /\ assigned' = AssignedAfter(assigned, done, inflight)
-       /\ batches' = IF inflight.op = "append" /\ ~IsRejectOrNoop(done, inflight)
-                     THEN Append(batches, [q |-> inflight.q,
+       /\ batches' = IF inflight.op \in {"truncate", "delete"} /\ ~IsRejectOrNoop(done, inflight)
+                     THEN TruncBatches(batches, inflight)
+                     ELSE IF inflight.op = "append" /\ ~IsRejectOrNoop(done, inflight)
+                     THEN Append(batches, [q |-> inflight.q, tp |-> -1,
                                            recs |-> LET s == AppendStart(done[inflight.q], inflight) IN
                                                       [i \in 1..Len(inflight.batch) |-> <<s + i - 1, inflight.batch[i][1], inflight.batch[i][2]>>]])
                      ELSE batches
@@ -558,7 +565,8 @@ Open ==
              /\ items' = items
   /\ lastOs' = 0
   /\ damaged' = FALSE
-  /\ UNCHANGED <<entries, dirDurable, buffered, osCnt, batches, wsum, wstart, nops, post, ncrash, clean, lastRet, lastLoss, cfile, ndamage, hits, dkinds>>
+  /\ batches' = IF inflight.op \in {"truncate", "delete"} /\ ~IsRejectOrNoop(done, inflight) THEN TruncBatches(batches, inflight) ELSE batches
+  /\ UNCHANGED <<entries, dirDurable, buffered, osCnt, wsum, wstart, nops, post, ncrash, clean, lastRet, lastLoss, cfile, ndamage, hits, dkinds>>
 
 Next == CallBegin \/ Step \/ CrashProcess \/ CrashPower \/ Restart \/ Open \/ Damage
 
@@ -584,7 +592,7 @@ BatchAtomic ==
           x == AbsOf(mem)
           n == Len(b.recs)
           present == IF x[b.q].a THEN {j \in 1..n : \E k \in 1..Len(x[b.q].recs) : x[b.q].recs[k] = b.recs[j]} ELSE {}
-      IN present = {} \/ \E k \in 1..n : present = k..n
+      IN present = {} \/ \E k \in 1..n : present = k..n /\ \A j \in 1..(k - 1) : b.recs[j][1] <= b.tp
 
 (* C06: after truncate / delete (and after open's GC) the files are a contiguous run ending at *)
 (* the writer's file, none older than the oldest attribution / the file at call start          *)
